@@ -221,3 +221,35 @@ where
 pub fn env_u64(name: &str) -> Option<u64> {
     std::env::var(name).ok().and_then(|v| v.trim().parse::<u64>().ok())
 }
+
+// ---------------------------------------------------------------------------
+// Event log of a run: hashed always, printed on request (`affsim trace`). Logging never
+// draws from a PRNG and never reads a clock.
+// ---------------------------------------------------------------------------
+
+thread_local! {
+    static EVENTS: RefCell<(Fnv, bool, u64)> = RefCell::new((Fnv::new(), false, 0));
+}
+
+pub fn events_reset(print: bool) {
+    EVENTS.with(|e| *e.borrow_mut() = (Fnv::new(), print, 0));
+}
+
+pub fn event(s: &str) {
+    EVENTS.with(|e| {
+        let mut e = e.borrow_mut();
+        e.0.str(s);
+        e.2 += 1;
+        if e.1 {
+            println!("event {:>5}: {}", e.2, s);
+        }
+    });
+}
+
+/// (digest, number of events) of the current run's log
+pub fn events_digest() -> (u64, u64) {
+    EVENTS.with(|e| {
+        let e = e.borrow();
+        (e.0.finish(), e.2)
+    })
+}
